@@ -640,6 +640,12 @@ func ruleStatusCheck(r *Run) {
 	// and the error of client.Do itself is covered by R6
 }
 
+// isAnswerList: []requests.Response, named (requests.Responses) or not.
+func isAnswerList(t types.Type) bool {
+	sl, ok := t.Underlying().(*types.Slice)
+	return ok && strings.HasSuffix(namedOf(sl.Elem()), "requests.Response")
+}
+
 func isEqNeq(i *ssa.If) bool {
 	bo, ok := i.Cond.(*ssa.BinOp)
 	return ok && (bo.Op == token.EQL || bo.Op == token.NEQ)
@@ -658,6 +664,100 @@ func ruleCountCheck(r *Run) {
 		n += r.countCheckIn(fn)
 	}
 	r.AtLeast(rule, "Queryer.Query calls in the executor", n, 1)
+	// the queryer's side of the same bargain: what it hands the executor is a list preallocated
+	// to the number of requests, so the executor's comparison cannot see a short answer — the
+	// decoded answer list of a fetch has to be compared with the number of requests fetched
+	// before it is ranged or indexed (repair c3dec22)
+	m := 0
+	for _, fn := range r.P.Funcs {
+		if topFn(fn).Pkg == nil || shortPkg(topFn(fn).Pkg.Pkg.Path()) != "queryer" {
+			continue
+		}
+		for _, ins := range allInstrs(fn) {
+			call, ok := ins.(*ssa.Call)
+			if !ok {
+				continue
+			}
+			sc := call.Call.StaticCallee()
+			if sc == nil || !inModule(sc) || sc == fn {
+				continue
+			}
+			var resps ssa.Value
+			if call.Referrers() != nil {
+				for _, ref := range *call.Referrers() {
+					if ex, ok := ref.(*ssa.Extract); ok && isAnswerList(ex.Type()) {
+						resps = ex
+					}
+				}
+			}
+			if isAnswerList(call.Type()) {
+				resps = call
+			}
+			if resps == nil || resps.Referrers() == nil {
+				continue
+			}
+			// positional uses: a range over it or an index into it
+			var uses []ssa.Instruction
+			for _, ref := range *resps.Referrers() {
+				switch x := ref.(type) {
+				case *ssa.IndexAddr, *ssa.Index, *ssa.Range:
+					uses = append(uses, x)
+				}
+			}
+			if len(uses) == 0 {
+				continue
+			}
+			m++
+			var eqSide *ssa.BasicBlock
+			for _, i2 := range allInstrs(fn) {
+				iff, ok := i2.(*ssa.If)
+				if !ok {
+					continue
+				}
+				bo, ok := iff.Cond.(*ssa.BinOp)
+				if !ok || (bo.Op != token.EQL && bo.Op != token.NEQ) {
+					continue
+				}
+				lenOfResps := func(v ssa.Value) bool {
+					c, ok := v.(*ssa.Call)
+					if !ok {
+						return false
+					}
+					b, ok := c.Call.Value.(*ssa.Builtin)
+					return ok && b.Name() == "len" && unwrap(c.Call.Args[0]) == resps
+				}
+				lenOfOther := func(v ssa.Value) bool {
+					c, ok := v.(*ssa.Call)
+					if !ok {
+						return false
+					}
+					b, ok := c.Call.Value.(*ssa.Builtin)
+					return ok && b.Name() == "len" && unwrap(c.Call.Args[0]) != resps
+				}
+				if (lenOfResps(bo.X) && lenOfOther(bo.Y)) || (lenOfResps(bo.Y) && lenOfOther(bo.X)) {
+					if bo.Op == token.NEQ {
+						eqSide = iff.Block().Succs[1]
+					} else {
+						eqSide = iff.Block().Succs[0]
+					}
+				}
+			}
+			good := eqSide != nil && len(eqSide.Preds) == 1
+			at := call.Pos()
+			if good {
+				for _, u := range uses {
+					if !(eqSide == u.Block() || eqSide.Dominates(u.Block())) {
+						good = false
+						at = u.Pos()
+					}
+				}
+			}
+			r.Check(good, rule, fnName(fn), "decoded answers consumed after count check", r.P.pos(at),
+				"every positional use of the decoded answer list is dominated by a comparison of its length with the number of requests sent",
+				"the answer list a service sent back is ranged or indexed without its length having been compared with the number of requests sent: a short (or long) answer is placed silently — the result list handed to the executor is preallocated to the number of requests, so the executor's own count check cannot see it, and a step's fields vanish from the data without an error")
+		}
+	}
+	r.AtLeast(rule, "decoded answer lists consumed positionally in the queryer", m, 1)
 }
 
 func (r *Run) countCheckIn(fn *ssa.Function) int {
